@@ -263,7 +263,15 @@ func genRegex() {
 	fmt.Fprintf(&b, "Definition G_safeURL_scheme_alt : regex :=\n  %s.\n", a1)
 	fmt.Fprintf(&b, "Definition G_safeURL_rel_alt : regex :=\n  %s.\n", a2)
 	fmt.Fprintf(&b, "Definition G_safeURL_scheme_class : list (N * N) := %s.\n", cls)
-	fmt.Fprintf(&b, "Definition translated_safeURL_split : bool := %v.\n", ok)
+	fmt.Fprintf(&b, "Definition translated_safeURL_split : bool := %v.\n\n", ok)
+	b.WriteString("Definition all_regexes : list (bytes * regex) :=\n  [ ")
+	for i, n := range names {
+		if i > 0 {
+			b.WriteString(";\n    ")
+		}
+		fmt.Fprintf(&b, "(B \"%s\", G_%s)", n, n)
+	}
+	b.WriteString(" ].\n")
 	writeIfChanged("GenRegex.v", b.Bytes())
 }
 
